@@ -135,6 +135,7 @@ func genConfig(t *rapid.T, p profile) harness.Config {
 	}
 	if c.Has("oauth2") {
 		c.StockDetails = chance(t, "stockdetails", 40)
+		c.ProviderParams = chance(t, "providerparams", 40)
 		c.Providers = []string{"goog", "fb"}[:rapid.IntRange(1, 2).Draw(t, "nprov")]
 	}
 	c.Browsers = rapid.IntRange(p.browsers[0], p.browsers[1]).Draw(t, "browsers")
@@ -560,6 +561,15 @@ func drawSnippet(t *rapid.T, name string, e genEnv) []Op {
 		if chance(t, "relogin", 50) {
 			ops = append(ops, Op{K: "login", B: b, A: a, Src: pick(t, "which", "pw", "pwold"), SA: a})
 		}
+	case "rotatefault":
+		// the request that presents the remember cookie meets a storage failure inside the rotation
+		if !c.Has("remember") || !c.Has("auth") || c.Middleware != "remember" {
+			return nil
+		}
+		login.F = true
+		ops = append(ops, login, Op{K: "newsess", B: b},
+			Op{K: "visit", B: b, S: pick(t, "route", "/p/none", "/p/full", "/p/full", "/open", "/p/2fa"), FN: pick(t, "fn", "AddRememberToken", "AddRememberToken", "UseRememberToken")},
+			Op{K: "visit", B: b, S: pick(t, "route2", "/p/none", "/p/full")})
 	case "remember":
 		if !c.Has("remember") || !c.Has("auth") {
 			return nil
@@ -805,7 +815,11 @@ func drawSnippet(t *rapid.T, name string, e genEnv) []Op {
 		ops = append(ops, login, Op{K: page, B: b, A: a, Src: "rec", SA: a, SN: n, F: true})
 		if chance(t, "reuseforremove", 35) {
 			// ... or present the code that just logged in where a recovery code disables the factor
-			ops = append(ops, Op{K: pick(t, "rmpage", "totpremove", "smsremove"), B: b, A: a, Src: "rec", SA: a, SN: n, F: true})
+			rm := "totpremove"
+			if !c.HasSetup("totp") || (c.HasSetup("sms") && chance(t, "rmsms", 50)) {
+				rm = "smsremove"
+			}
+			ops = append(ops, Op{K: rm, B: b, A: a, Src: "rec", SA: a, SN: n, F: true})
 		}
 		if chance(t, "replay", 70) {
 			ops = append(ops, Op{K: "newsess", B: b}, login, Op{K: page, B: b, A: a, Src: "rec", SA: a, SN: n, F: true})
@@ -837,7 +851,10 @@ func drawSnippet(t *rapid.T, name string, e genEnv) []Op {
 		case "half":
 			full[0].F = true
 			ops = append(ops, full...)
-			ops = append(ops, Op{K: "newsess", B: b}, Op{K: "visit", B: b, S: "/open"})
+			ops = append(ops, Op{K: "newsess", B: b})
+			if chance(t, "visitfirst", 50) {
+				ops = append(ops, Op{K: "visit", B: b, S: "/open"})
+			} // else: the logout itself is the request that presents the remember cookie
 		case "mid2fa":
 			ops = append(ops, login)
 		case "mid2fasetup":
